@@ -792,6 +792,11 @@ func (ai *absInterp) compute(st *absState, v ssa.Value) aval {
 		case APtr:
 			return APtr{bk: b.bk, off: b.off + int(i), w: 1}
 		case ASlice:
+			if int(i) >= b.len {
+				// indexing a slice past its length panics, also where the element is not used (`_ = b[8]`)
+				ai.procErr = fmt.Sprintf("index %d out of range of a slice of length %d in %s", i, b.len, x.Parent().Name())
+				return nil
+			}
 			return APtr{bk: b.bk, off: b.off + int(i), w: 1}
 		}
 		return nil
